@@ -5,7 +5,7 @@ package analyzer
 //
 
 // As soon as the algorithm detects that the `originalStart` node is reachable from other modules, it returns an error
-func (self Analyzer) importGraphIsCyclicInner(originalStart string, start string, path []string) (outputPath []string, isCyclic bool) {
+func (self Analyzer) importGraphIsCyclicInner(originalStart string, start string, path []string, visited map[string]struct{}) (outputPath []string, isCyclic bool) {
 	// modules reachable from `start`
 	module, found := self.modules[start]
 	if !found {
@@ -19,7 +19,13 @@ func (self Analyzer) importGraphIsCyclicInner(originalStart string, start string
 		if node == originalStart {
 			return append(path, node), true
 		}
-		if path, cyclic := self.importGraphIsCyclicInner(originalStart, node, append(path, node)); cyclic {
+		// a module that was already explored cannot lead back to `originalStart` (and a cycle that
+		// does not contain `originalStart` must not be followed forever)
+		if _, seen := visited[node]; seen {
+			continue
+		}
+		visited[node] = struct{}{}
+		if path, cyclic := self.importGraphIsCyclicInner(originalStart, node, append(path, node), visited); cyclic {
 			return path, cyclic
 		}
 	}
@@ -28,5 +34,5 @@ func (self Analyzer) importGraphIsCyclicInner(originalStart string, start string
 }
 
 func (self Analyzer) importGraphIsCyclic(start string) (outputPath []string, isCyclic bool) {
-	return self.importGraphIsCyclicInner(start, start, []string{start})
+	return self.importGraphIsCyclicInner(start, start, []string{start}, map[string]struct{}{start: {}})
 }
